@@ -275,7 +275,14 @@ pub fn gen_client(rng: &mut Rng, id: usize) -> Vec<String> {
             }
         }
         let l: Vec<String> = hs.iter().map(|(n, v)| format!("{}={}", hx(n), hx(v))).collect();
-        lines.push(format!("hcfg uri={} custom={}", hx("ws://example.com/custom"), l.join(",")));
+        // the caller's request object may carry another method or HTTP version
+        let cm = if rng.chance(1, 8) { " cmethod=POST" } else { "" };
+        let cv = match rng.below(8) {
+            0 => " cversion=10",
+            1 => " cversion=20",
+            _ => "",
+        };
+        lines.push(format!("hcfg uri={} custom={}{cm}{cv}", hx("ws://example.com/custom"), l.join(",")));
     } else {
         let mut extra: Vec<String> = Vec::new();
         for e in [("Origin", "http://o"), ("X-Foo", "bar"), ("x-lower", "1"), ("Authorization", "Basic abc")] {
